@@ -3020,13 +3020,18 @@ public:
 
   disjunctive_linear_constraint_system_t
   to_disjunctive_linear_constraint_system() const override {
-    disjunctive_linear_constraint_system_t res;
     auto disj_csts = m_base_dom.to_disjunctive_linear_constraint_system();
+    if (disj_csts.is_false() || disj_csts.is_true()) {
+      return disj_csts;
+    }
+    disjunctive_linear_constraint_system_t res(true /*false*/);
     for (auto &csts : disj_csts) {
       auto filtered_csts = filter_nonscalar_vars(std::move(csts));
-      if (!filtered_csts.is_true()) {
-        res += filtered_csts;
+      if (filtered_csts.is_true()) {
+        // a true disjunct makes the whole disjunction true
+        return disjunctive_linear_constraint_system_t();
       }
+      res += filtered_csts;
     }
     return res;
   }
